@@ -76,6 +76,7 @@ HOSTILE_B = [
     b"x" * 200, b"sp ace", b"semi;colon", b"amp&er", b"pipe|", b"par(en)", b"cur{ly}", b"eq=ual", b"per%cent",
     b"trailnl\n", b"trailtab\t", "trail ".encode(), "trail ".encode(), b" ", b"!bang", b"a b  c",
     "\u00a0leadnb".encode(), "nel\u0085".encode(), "ideo\u3000".encode(),
+    b"br{a,b}ce", b"seq{1..3}", b"\xf0\x9f\x98cut",
     b"\x01ctl", b"\x7fdel", b"new\nline\ntwice", b"'", b'"', b"\\", b"$'x'", b"$(echo)", b"a'b\"c",
 ]
 HOSTILE = [fsd(b) for b in HOSTILE_B]
